@@ -19,7 +19,7 @@ struct Model {
 struct Exp { bool resp = false; uint8_t cs = 0; int check = 0; uint8_t err = 0; uint32_t val = 0; bool store_call = false; uint8_t st_node = 0; uint32_t st_baud = 0; bool free_resp = false; };
 
 struct C18 {
-  Ctx &c; Sim s; World w; uint32_t ident[4]; Model m[16]; uint8_t nodeid; int nmt = 2;
+  Ctx &c; Sim s; World w; uint32_t ident[4]; uint32_t *idv[4] = {0, 0, 0, 0}; Model m[16]; uint8_t nodeid; int nmt = 2;
   bool via_selective = false, store_reset = false; bool stored_ok = false; int nfail = 0;
 
   C18(Ctx &cx) : c(cx), s(cx), w(s) { for (int i = 0; i < 16; i++) { m[i].restart = i & 1; m[i].independent = i & 2; m[i].keep_done = i & 4; m[i].act_clears = !(i & 8); } }
@@ -34,7 +34,7 @@ struct C18 {
     s.add(CO_KEY(0x1014, 0, CO_OBJ__N__RW), CO_TEMCY_ID, (CO_DATA)s.var<uint32_t>("1014", 0x80));
     s.add(CO_KEY(0x1017, 0, CO_OBJ_____RW), CO_THB_PROD, (CO_DATA)s.var<uint16_t>("1017", 0));
     s.add(CO_KEY(0x1018, 0, CO_OBJ_D___R_), CO_TUNSIGNED8, incomplete ? 3 : 4);
-    for (int i = 0; i < (incomplete ? 3 : 4); i++) s.add(CO_KEY(0x1018, i + 1, CO_OBJ_____R_), CO_TUNSIGNED32, (CO_DATA)s.var<uint32_t>("1018:n", id[i]));
+    for (int i = 0; i < (incomplete ? 3 : 4); i++) { idv[i] = s.var<uint32_t>("1018:n", id[i]); s.add(CO_KEY(0x1018, i + 1, CO_OBJ_____R_), CO_TUNSIGNED32, (CO_DATA)idv[i]); }
     s.add(CO_KEY(0x1200, 0, CO_OBJ_D___R_), CO_TUNSIGNED8, 2);
     s.add(CO_KEY(0x1200, 1, CO_OBJ_DN__R_), CO_TUNSIGNED32, 0x600); s.add(CO_KEY(0x1200, 2, CO_OBJ_DN__R_), CO_TUNSIGNED32, 0x580);
     s.init(); s.start(); s.clear_tx(); s.clear_ev();
@@ -194,8 +194,12 @@ void case_random(Ctx &c) {
   int steps = 0;
   while (!c.t.exhausted() && steps < 100) {
     steps++; c.ops++;
-    uint32_t k = c.t.below(C18::LETTERS + 6 + (c.param == 1 ? 14 : 0));
+    uint32_t k = c.t.below(C18::LETTERS + 6 + (c.param == 1 ? 14 : c.param == 2 ? 5 : 0));
     if (k < (uint32_t)C18::LETTERS) x.letter(k);
+    else if (c.param == 2 && k >= (uint32_t)C18::LETTERS + 6) {   // mode identity-rewritten: the application changes the variable behind 1018h:n while the node runs (a serial number provisioned late); "the identity object" is what the dictionary holds now
+      int i = (int)c.t.below(4); uint32_t r = c.t.below(4); uint32_t v = r == 0 ? x.ident[i] + 1 : r == 1 ? x.ident[i] - 1 : r == 2 ? 5 : c.t.u32();
+      *x.idv[i] = v; x.ident[i] = v; c.cls("identity-rewritten-while-running"); VLOG(c, "application sets 1018h:%d to %08X", i + 1, v);
+    }
     else if (k >= (uint32_t)C18::LETTERS + 6) { uint32_t j = k - C18::LETTERS - 6; if (j < 6) x.activate(1 + c.t.below(4)); else if (j < 9) x.suffix(false, 1 + (int)(j - 6)); else x.suffix(true, 1 + (int)(j - 9)); }
     else if (k == C18::LETTERS) { Frame f = x.L(c.t.byte(), c.t.u32()); f.d[5] = c.t.byte(); f.dlc = c.t.chance(200) ? 8 : (uint8_t)c.t.below(9); if (f.d[0] == 21) f.d[0] = 22; if (f.d[0] == 4 && f.d[1] > 1) f.d[1] &= 1; x.lss(f, "random LSS frame"); }
     else if (k == C18::LETTERS + 1) { x.lss(x.L(17, c.t.byte()), "configure node-id (any value)"); }
@@ -216,8 +220,9 @@ Registrar reg(Prop{
     "Non-trivial: configuration state reached via the selective path, or a successful store followed by a reset. Distinct = distinct decoded choice sequence.",
     {Mode{"enum", case_enum, true, 0, 0, 3, 4, 0, 0},
      Mode{"random", case_random, false, 1500000, 20000000, 0, 0, 200, 400},
-     Mode{"with-activate", case_random, false, 300000, 5000000, 1, 1, 200, 400}},
-    {"activate-bit-timing (cs 21) is executed in mode with-activate only, with a switch delay of 1..4 ms and no traffic until both delay periods have passed; it is never answered; whether it clears the position of a selective / identify sequence is left open (two readings)", "identify-non-configured-remote-slave is not in the statement: only 'at most one answer with cs 50h' is asserted", "switch-state-global is generated with modes 0 and 1 only (other values are reserved)",
+     Mode{"with-activate", case_random, false, 300000, 5000000, 1, 1, 200, 400},
+     Mode{"identity-rewritten", case_random, false, 150000, 2500000, 2, 2, 200, 400}},
+    {"activate-bit-timing (cs 21) is executed in mode with-activate only, with a switch delay of 1..4 ms and no traffic until both delay periods have passed; it is never answered; whether it clears the position of a selective / identify sequence is left open (two readings)", "mode identity-rewritten changes the variables behind 1018h:1..4 between frames (values +-1, 5, random) and expects every later comparison and inquiry to use the new value", "identify-non-configured-remote-slave is not in the statement: only 'at most one answer with cs 50h' is asserted", "switch-state-global is generated with modes 0 and 1 only (other values are reserved)",
      "the bit rate after reset is read from the public CO_NODE::Baudrate field"}});
 
 }  // namespace
